@@ -321,7 +321,12 @@ def run_c03_c09(r: Run, prop):
             if mass > 4000 and req in ("n:150", "n:300"):
                 continue   # exact evaluation at order 150-300 on thousands of atoms: hours
             z = rng.choice([0, 0, 1, 2, -1, 3, -3])
-            cases.append((comp, req, z, PROTON, rng.choice(["vec", "map"])))
+            # mostly the proton; sometimes sodium, an electron lost (a NEGATIVE carrier), nothing; rarely the extremes of the
+            # charge's type
+            ca = rng.choice([PROTON] * 6 + [Fraction(22989218, 10 ** 6), Fraction(-549, 10 ** 6), Fraction(-1007276, 10 ** 6), Fraction(0)])
+            if rng.random() < 0.03:
+                z = rng.choice([2147483647, -2147483648, -2147483647])
+            cases.append((comp, req, z, ca, rng.choice(["vec", "map"])))
     # the cut loop's leading branch: variants below 1e-10 of the requested range BEFORE the first real one are kept
     for comp, req, z in ([("Mg", 100)], "n:100", 2), ([("Mg", 150)], "n:120", -1), ([("Mg", 100), ("Si", 10)], "n:110", 1), \
             ([("Mg", 100)], "n:100", 0):
@@ -339,6 +344,9 @@ def run_c03_c09(r: Run, prop):
             mass = sum(T[s]["mono"] * n for s, n in comp)
             for f in boundary_fractions(mass, 8 if thorough else 6):
                 cases.append((comp, f"f:{f.numerator}/{f.denominator}", rng.choice([0, 1]), PROTON, "vec"))
+        for zx in (2147483647, -2147483648, -2147483647):
+            cases.append(([("C", 6), ("H", 12), ("O", 6)], "n:5", zx, PROTON, "vec"))
+            cases.append(([("K", 3)], "guess", zx, Fraction(-549, 10 ** 6), "map"))
         pool = [[("C", 6), ("H", 12), ("O", 6)], [("K", 3)], [("Si", 2), ("Mg", 1), ("O", 4)], [("H", 2), ("O", 1)],
                 [("Cl", 2)], [("K", 300)], [("Br", 4)], [("S", 8)], [("Ca", 1), ("Cl", 2)], [("C", 60), ("H", 120), ("O", 60)]]
         ns = list(range(-3, 41)) + [64, 150, 300, 320] if thorough else [-3, -1, 0, 1, 2, 3, 4, 7, 8, 9, 16, 33, 64, 300, 320]
